@@ -432,44 +432,8 @@ def r4_error_isolation(w):
                 if v.label_values(sw, label) == {False}:
                     zero_edges.add((sw, tgt))
         after = [s_ for (x, s_) in exits if x == sw_of(b, h)]
-        # the walk remembers which variant a Result local was last built as, so that `helper()?` (expanded: `r = Err(..); match branch(r) {..}`) is not
-        # followed along the Continue edge after an Err was built
-        seen, visited, work = set(), set(), [(s_, ()) for s_ in after]
-        while work:
-            x, st8 = work.pop()
-            if (x, st8) in visited:
-                continue
-            visited.add((x, st8))
-            seen.add(x)
-            known = dict(st8)
-            for stm in b.blocks[x]['stmts']:
-                if stm['s'] == 'assign' and not stm['p']['proj']:
-                    if stm['rv']['r'] == 'agg' and stm['rv'].get('vname') in ('Ok', 'Err', 'Some', 'None'):
-                        known[stm['p']['l']] = stm['rv']['vname']
-                    elif stm['rv']['r'] == 'use' and stm['rv']['op'].get('o') in ('move', 'copy') and not stm['rv']['op']['p']['proj'] and stm['rv']['op']['p']['l'] in known:
-                        known[stm['p']['l']] = known[stm['rv']['op']['p']['l']]
-                    elif stm['rv']['r'] == 'discr' and not stm['rv']['p']['proj'] and stm['rv']['p']['l'] in known:
-                        known[stm['p']['l']] = ('discr', known[stm['rv']['p']['l']])
-                    else:
-                        known.pop(stm['p']['l'], None)
-            tt = b.blocks[x]['term']
-            if tt['t'] == 'call' and not tt['dest']['proj']:
-                a0 = tt['args'][0] if tt['args'] else None
-                if re.search(r'Try>?::branch$', callee_path(tt) or '') and a0 and a0.get('o') in ('move', 'copy') and not a0['p']['proj'] and a0['p']['l'] in known:
-                    known[tt['dest']['l']] = 'Continue' if known[a0['p']['l']] in ('Ok', 'Some') else 'Break'
-                else:
-                    known.pop(tt['dest']['l'], None)
-            succs = list(b.succs(x))
-            if tt['t'] == 'switch' and tt['discr'].get('o') in ('move', 'copy') and not tt['discr']['p']['proj']:
-                kv = known.get(tt['discr']['p']['l'])
-                if isinstance(kv, tuple) and kv[0] == 'discr' and kv[1] in ('Continue', 'Break'):
-                    want = 0 if kv[1] == 'Continue' else 1
-                    succs = [tg for val, tg in tt['targets'] if val == want] or succs
-            nst = tuple(sorted((k, v_) for k, v_ in known.items() if isinstance(k, int)))
-            for s_ in succs:
-                if b.blocks[s_]['cleanup'] or (x, s_) in zero_edges or s_ in blocks:
-                    continue
-                work.append((s_, nst))
+        # path-sensitive for values built as a known variant (`helper()?` expanded: `r = Err(..); match branch(r) {..}`)
+        seen = cfg.walk_known(b, after, cut_edges=zero_edges, skip_blocks=blocks)
         skipped = [bi for bi in sorted(seen) for st in b.blocks[bi]['stmts']
                    if st['s'] == 'assign' and st['p']['l'] == 0 and not st['p']['proj'] and st['rv']['r'] == 'agg' and st['rv'].get('vname') == 'Ok']
         cons = {'fn': b.short, 'error_counter_test_at': sorted(tests), 'ok_returns_not_behind_it': skipped}
@@ -577,9 +541,18 @@ def _counter_guards_err(c, v, counters):
                                         if x[0] == 'ref':
                                             names.add(v.b.names.get(x[1][0], ''))
                                     l = a['p']['l']
-                                    for (proj, kind, dbi, dsi, payload) in v.pv.defs.get(l, []):
-                                        if kind == 'rv' and payload['r'] == 'use' and payload['op']['o'] in ('copy', 'move'):
-                                            names.add(_place_name(v, payload['op']['p']))
+                                    seen_l = set()
+                                    for _ in range(5):          # copies through temporaries / the bound parameter of an expanded helper
+                                        nxt = None
+                                        for (proj, kind, dbi, dsi, payload) in v.pv.defs.get(l, []):
+                                            if kind == 'rv' and payload['r'] == 'use' and payload['op']['o'] in ('copy', 'move'):
+                                                names.add(_place_name(v, payload['op']['p']))
+                                                if len(v.pv.defs.get(l, [])) == 1 and not payload['op']['p']['proj']:
+                                                    nxt = payload['op']['p']['l']
+                                        if nxt is None or nxt in seen_l:
+                                            break
+                                        seen_l.add(nxt)
+                                        l = nxt
                                     if names & counters:
                                         found.add(sw)
     return sorted(found)
@@ -629,7 +602,7 @@ def _result_local_handled(c, v, b, blocks, h, dest, counters, depth):
                             for name, bbs in _increments(v).items():
                                 if name in counters:
                                     inc_blocks |= set(bbs)
-                            if inc_blocks and (tgt in inc_blocks or not cfg.paths_avoiding(b, tgt, {h}, inc_blocks)):
+                            if inc_blocks and (tgt in inc_blocks or h not in cfg.walk_known(b, [tgt], stop=lambda x: x == h, skip_blocks=inc_blocks)):
                                 return True, 'Err edge increments the error counter before the next iteration'
                             return False, 'ignored: the Err edge continues with the next input without incrementing an error counter'
     if not uses:
